@@ -22,6 +22,7 @@ type sharedTab struct {
 	genWrites      [][2]string // field of PatternNameGenerator, method that assigns it non-atomically
 	wfwWrites      [][2]string // field of WarcFileWriter, function that assigns it (other than the constructor)
 	readerWrites   [][2]string // field of WarcFileReader, method that assigns it
+	optsWrites     [][2]string // field of an options object reached through a `.opts` field, function that assigns it
 	poolPuts       [][3]string // function, pool, "niled"/"kept": is the reference dropped right after Put
 	splitMethods   []string    // lock holders with statements outside the locked region: "m!" is entered whenever "m" is
 }
@@ -256,6 +257,12 @@ func collectShared(pkgName string, p *pkgInfo, t *sharedTab) {
 				if pkgVars[id.Name] && !locals[id.Name] {
 					t.pkgVarWrites = append(t.pkgVarWrites, [3]string{pkgName, id.Name, fn})
 				}
+				// x.opts.f = ... : the options object is shared by a reader / unmarshaler / builder and every record it produces
+				if sel, ok := lhs.(*ast.SelectorExpr); ok {
+					if inner, ok := sel.X.(*ast.SelectorExpr); ok && inner.Sel.Name == "opts" && pkgName == "gowarc" {
+						t.optsWrites = append(t.optsWrites, [2]string{sel.Sel.Name, fn})
+					}
+				}
 				if sel, ok := lhs.(*ast.SelectorExpr); ok && id.Name == rname && rname != "" {
 					if x, ok := sel.X.(*ast.Ident); ok && x.Name == rname {
 						switch rtype {
@@ -482,6 +489,8 @@ func genSharedAccess(p, db *pkgInfo) string {
 	fmt.Fprintf(&sb, "/-- (function, pool, niled|kept) : sync.Pool Put calls and whether the reference is dropped afterwards -/\ndef poolPuts : List (String × String × String) := %s\n\n", leanTriples(t.poolPuts))
 	sb.WriteString("/-- (field, method) : assignments to fields of WarcFileReader in its methods: what a reader keeps between calls -/\n")
 	fmt.Fprintf(&sb, "def readerFieldWrites : List (String × String) := %s\n\n", leanPairs(uniq2(t.readerWrites)))
+	sb.WriteString("/-- (field, function) : assignments to a field of an options object through an `.opts` field (after construction) -/\n")
+	fmt.Fprintf(&sb, "def optsFieldWrites : List (String × String) := %s\n\n", leanPairs(uniq2(t.optsWrites)))
 	objs := append(collectPkgObjects("gowarc", p), collectPkgObjects("diskbuffer", db)...)
 	sb.WriteString("/-- (package, variable, maker) : package-level variables holding an object -/\n")
 	fmt.Fprintf(&sb, "def pkgObjects : List (String × String × String) := %s\n\n", leanTriples(objs))
